@@ -824,7 +824,12 @@ func (c10Stream) Impl(c Case) string {
 			return "harness-error connect: " + err.Error()
 		}
 		_ = oc.send(Seq(Int(2, 2), P(1, 2, nil)).Ser())
-		other.tr.Wait("conn.gone", 1, -1, 5*time.Second)
+		if !other.tr.Wait("loop.unbind", 1, -1, 20*time.Second) {
+			oc.close()
+			other.finish()
+			return "harness-error the other server did not get to read the Unbind within 20 s"
+		}
+		other.tr.Wait("conn.gone", 1, -1, 10*time.Second)
 		oc.close()
 		other.finish()
 		if n := atomic.LoadInt32(&warmUnbinds); n != 1 {
